@@ -53,6 +53,7 @@ let run () =
         | ["remove"; k] -> Some (Remove (bytes_of_hex k))
         | ["clear"] -> Some Clear
         | ["size"] -> Some Size
+        | ["otherwalk"; _] -> Some Size     (* walks on another table of the process: nothing may show here *)
         | ["min"] -> Some FindMin
         | ["max"] -> Some FindMax
         | ["walk"; n] -> Some (Walk (nat_of_int (int_of_string n)))
